@@ -12,7 +12,7 @@ for d in "$@"; do
     out=/tmp/vs2_${kind}_${prop}${x}.json
     [ -f $out ] && continue
     echo "verifying $kind $prop $x"
-    if [ "$kind" = "r2b" ]; then
+    if [ "$kind" = "r2b" ] || [ "$kind" = "r3b" ]; then
       ( /venv/bin/python tools/verify_seed.py $prop b2${x} $d/patch_$X.diff $d/demo_$X.py $d/notes_$X.md --benign > $out 2>&1 ) &
     else
       ( /venv/bin/python tools/verify_seed.py $prop r2${x} $d/patch_$X.diff $d/demo_$X.py $d/notes_$X.md > $out 2>&1 ) &
